@@ -32,6 +32,9 @@ func parserScope(c *Ctx) []*ssa.Function {
 
 func c12() []*Ob {
 	return []*Ob{
+		{Prop: "C12", ID: "C12.8", Engine: "PAIR", Floor: 2,
+			Desc:  "the words of a text term are the indexer's words: both parsers split the value of a text field with the same character classes as the text tokenizer (shared rule with C11.1) — 'several words on a text field are a conjunction' of exactly the words the documents were indexed under; a class that is narrower on the query side turns one indexed word into a conjunction of fragments no document has",
+			Check: shared("C11.1")},
 		{Prop: "C12", ID: "C12.1", Engine: "ENUM(panic)+DOM", Floor: 1,
 			Desc: "no explicit panic/fatal sink is reachable from ParseSeqQL / ParseQuery / ParseAggregationFilter for any input string and any mapping (every mapping type: keyword, text, path, exists, object, tags, nested, noop)",
 			Check: func(c *Ctx) {
